@@ -193,6 +193,7 @@ func (s *scheduler) block(what string) {
 }
 
 func (i *interpreter) spawn(fr *frame, fn value, args []value) {
+	i.bailIfSpeculating("synchronisation")
 	s := i.ensureSched()
 	g := &gor{id: len(s.gs), state: gRunnable, resume: make(chan struct{})}
 	switch f := fn.(type) {
@@ -364,6 +365,7 @@ func (i *interpreter) tryRecv(c *vchan) (value, bool, bool) {
 }
 
 func (i *interpreter) chanSend(fr *frame, c *vchan, v value) {
+	i.bailIfSpeculating("synchronisation")
 	if c == nil {
 		if i.sched == nil {
 			panic(engineTrap{msg: "send on nil channel blocks forever"})
@@ -392,6 +394,7 @@ func (i *interpreter) chanSend(fr *frame, c *vchan, v value) {
 }
 
 func (i *interpreter) chanRecv(fr *frame, instr *ssa.UnOp, c *vchan) value {
+	i.bailIfSpeculating("synchronisation")
 	var v value
 	ok := false
 	if c == nil {
@@ -424,6 +427,7 @@ func (i *interpreter) chanRecv(fr *frame, instr *ssa.UnOp, c *vchan) value {
 }
 
 func (i *interpreter) chanClose(fr *frame, c *vchan) {
+	i.bailIfSpeculating("synchronisation")
 	if c == nil {
 		panic(targetPanic{iface{types.Typ[types.String], "close of nil channel"}})
 	}
@@ -454,6 +458,7 @@ func (i *interpreter) chanClose(fr *frame, c *vchan) {
 }
 
 func (i *interpreter) selectStmt(fr *frame, instr *ssa.Select, ci *cinstr) value {
+	i.bailIfSpeculating("synchronisation")
 	type cs struct {
 		c    *vchan
 		send bool
@@ -580,6 +585,7 @@ func (i *interpreter) selectStmt(fr *frame, instr *ssa.Select, ci *cinstr) value
 // ---- mutexes under the scheduler
 
 func (i *interpreter) mutexLock(p *value) {
+	i.bailIfSpeculating("synchronisation")
 	s := i.sched
 	if s == nil {
 		return
@@ -598,6 +604,7 @@ func (i *interpreter) mutexLock(p *value) {
 }
 
 func (i *interpreter) mutexUnlock(p *value) {
+	i.bailIfSpeculating("synchronisation")
 	s := i.sched
 	if s == nil {
 		return
@@ -648,6 +655,3 @@ func (i *interpreter) alive() int {
 	}
 	return n
 }
-
-// tryIfConvert: if-conversion of pure triangles/diamonds (not yet enabled).
-func (fr *frame) tryIfConvert(ci *cinstr, c symBool) bool { return false }
